@@ -195,7 +195,7 @@ class AsyncServer(base_server.BaseServer):
                 await socket.close(reason=self.reason.SERVER_DISCONNECT)
                 if sid in self.sockets:  # pragma: no cover
                     del self.sockets[sid]
-        else:
+        elif self.sockets:
             await asyncio.wait([
                 asyncio.create_task(client.close(
                     reason=self.reason.SERVER_DISCONNECT))
